@@ -2456,3 +2456,591 @@ Proof.
   split; [exact D2|apply Hcalm; exact C2].
 Qed.
 End Reach3.
+
+(* ================================================================== *)
+(** * Part D.  Requests and uploads *)
+
+(** ** list-level facts: unique ids, counting *)
+Definition b2z (b : bool) : Z := if b then 1 else 0.
+Definition cnt (P : req -> bool) (l : list req) : Z := Z.of_nat (length (filter P l)).
+
+Lemma cnt_nil P : cnt P [] = 0. Proof. reflexivity. Qed.
+
+Lemma cnt_cons P x l : cnt P (x :: l) = b2z (P x) + cnt P l.
+Proof. unfold cnt. cbn [filter]. destruct (P x); cbn [length b2z]; lia. Qed.
+
+Lemma cnt_app P l x : cnt P (l ++ [x]) = cnt P l + b2z (P x).
+Proof.
+  induction l as [|y r IH]; cbn [app]; rewrite ?cnt_cons, ?cnt_nil; [lia|]. rewrite IH. lia.
+Qed.
+
+Lemma cnt_nonneg P l : 0 <= cnt P l.
+Proof. unfold cnt. lia. Qed.
+
+Lemma cnt_pos_exists P l : 0 < cnt P l -> exists q, In q l /\ P q = true.
+Proof.
+  induction l as [|y r IH]; rewrite ?cnt_nil, ?cnt_cons; [lia|].
+  destruct (P y) eqn:E; [intros _; exists y; split; [now left|exact E]|].
+  cbn [b2z]. intros H. destruct IH as (q & Hq & HP); [lia|]. exists q. split; [now right|exact HP].
+Qed.
+
+Lemma cnt_upd_same P r f l : (forall q, P (f q) = P q) -> cnt P (upd_req r f l) = cnt P l.
+Proof.
+  intros Hf. induction l as [|y l' IH]; [reflexivity|].
+  cbn [upd_req map]. change (map _ l') with (upd_req r f l'). rewrite !cnt_cons, IH.
+  destruct (r_id y =? r); [now rewrite Hf|reflexivity].
+Qed.
+
+Lemma upd_req_absent r f l : ~ In r (map r_id l) -> upd_req r f l = l.
+Proof.
+  induction l as [|y l' IH]; [reflexivity|]. cbn [map In upd_req]. intros Hn.
+  change (map (fun x => if r_id x =? r then f x else x) l') with (upd_req r f l'). rewrite IH by tauto.
+  destruct (r_id y =? r) eqn:E; [exfalso; apply Hn; left; lia|reflexivity].
+Qed.
+
+Lemma cnt_upd P r f l q :
+  NoDup (map r_id l) -> find_req r l = Some q ->
+  cnt P (upd_req r f l) = cnt P l - b2z (P q) + b2z (P (f q)).
+Proof.
+  induction l as [|y l' IH]; [discriminate|].
+  cbn [map find_req upd_req]. change (map (fun x => if r_id x =? r then f x else x) l') with (upd_req r f l'). intros Hnd Hf.
+  inversion Hnd as [|? ? Hni Hnd']; subst. rewrite !cnt_cons.
+  destruct (r_id y =? r) eqn:E.
+  - injection Hf as <-. assert (r_id y = r) by lia. subst r.
+    rewrite (upd_req_absent _ _ _ Hni). lia.
+  - rewrite (IH Hnd' Hf). lia.
+Qed.
+
+Lemma find_req_of_nodup l q : NoDup (map r_id l) -> In q l -> find_req (r_id q) l = Some q.
+Proof.
+  induction l as [|y l' IH]; [intros _ []|]. cbn [map In find_req]. intros Hnd [->|Hin].
+  - now rewrite Z.eqb_refl.
+  - inversion Hnd as [|? ? Hni Hnd']; subst.
+    destruct (r_id y =? r_id q) eqn:E; [|auto].
+    exfalso. apply Hni. apply in_map_iff. exists q. split; [lia|exact Hin].
+Qed.
+
+Lemma find_req_none_notin r l : find_req r l = None -> ~ In r (map r_id l).
+Proof.
+  induction l as [|y l' IH]; [intros _ []|]. cbn [map In find_req].
+  destruct (r_id y =? r) eqn:E; [discriminate|]. intros H [Hc|Hc]; [lia|]. now apply IH.
+Qed.
+
+Lemma map_rid_upd r f l : (forall q, r_id (f q) = r_id q) -> map r_id (upd_req r f l) = map r_id l.
+Proof.
+  intros Hf. unfold upd_req. rewrite map_map. apply map_ext.
+  intros q. destruct (r_id q =? r); [apply Hf|reflexivity].
+Qed.
+
+Definition reqs_nodup (s : state) : Prop := NoDup (map r_id (reqs s)).
+
+Lemma reqs_nodup_step s e s' : reqs_nodup s -> step s e = Some s' -> reqs_nodup s'.
+Proof.
+  unfold reqs_nodup. intros I H. pose proof (step_reqs_frame _ _ _ H) as Hfr.
+  destruct e; try (rewrite Hfr; exact I).
+  - destruct (s3begin_inv _ _ _ _ _ _ _ H) as [_ Hfresh _ _ Hr _ _]. rewrite Hr, map_app. cbn [map r_id].
+    apply NoDup_snoc; [exact I|]. now apply find_req_none_notin.
+  - destruct (s3effect_inv _ _ _ _ H) as [_ Hr]. rewrite Hr, map_rid_upd; [exact I|reflexivity].
+  - destruct (s3end_inv _ _ _ _ H) as [_ Hr]. rewrite Hr, map_rid_upd; [exact I|reflexivity].
+Qed.
+
+(** uploads: unique ids *)
+Lemma find_upload_app i l x :
+  find_upload i (l ++ [x]) =
+  match find_upload i l with Some u => Some u | None => if u_id x =? i then Some x else None end.
+Proof.
+  induction l as [|y r IH]; cbn [app find_upload]; [reflexivity|].
+  destruct (u_id y =? i); [reflexivity|exact IH].
+Qed.
+
+Lemma find_upload_upd i j f l :
+  (forall x, u_id (f x) = u_id x) ->
+  find_upload i (upd_upload j f l) = if i =? j then option_map f (find_upload i l) else find_upload i l.
+Proof.
+  intros Hid. induction l as [|x r IH]; cbn [upd_upload map find_upload].
+  - now destruct (i =? j).
+  - change (map _ r) with (upd_upload j f r).
+    destruct (u_id x =? j) eqn:E1.
+    + rewrite Hid. destruct (u_id x =? i) eqn:E2.
+      * assert (i =? j = true) by lia. now rewrite H.
+      * exact IH.
+    + destruct (u_id x =? i) eqn:E2.
+      * assert (i =? j = false) by lia. now rewrite H.
+      * exact IH.
+Qed.
+
+Definition uploads_uniq (s : state) : Prop :=
+  forall u, In u (uploads s) -> find_upload (u_id u) (uploads s) = Some u.
+
+Lemma begin_upd_id op v : u_id (begin_upd op v) = u_id v.
+Proof. destruct op; reflexivity. Qed.
+Lemma begin_upd_t op v : u_t (begin_upd op v) = u_t v.
+Proof. destruct op; reflexivity. Qed.
+
+Lemma upd_upload_in' i f l u' :
+  In u' (upd_upload i f l) -> exists u, In u l /\ ((u_id u <> i /\ u' = u) \/ (u_id u = i /\ u' = f u)).
+Proof.
+  unfold upd_upload. rewrite in_map_iff. intros (u & Hu & Hin). exists u. split; [exact Hin|].
+  destruct (u_id u =? i) eqn:E; [right; split; [lia|auto]|left; split; [lia|auto]].
+Qed.
+
+Lemma upd_req_in' r f l q' :
+  In q' (upd_req r f l) -> exists q, In q l /\ ((r_id q <> r /\ q' = q) \/ (r_id q = r /\ q' = f q)).
+Proof.
+  unfold upd_req. rewrite in_map_iff. intros (q & Hq & Hin). exists q. split; [exact Hin|].
+  destruct (r_id q =? r) eqn:E; [right; split; [lia|auto]|left; split; [lia|auto]].
+Qed.
+
+Lemma uploads_uniq_upd i f l :
+  (forall x, u_id (f x) = u_id x) ->
+  (forall u, In u l -> find_upload (u_id u) l = Some u) ->
+  forall u, In u (upd_upload i f l) -> find_upload (u_id u) (upd_upload i f l) = Some u.
+Proof.
+  intros Hid I u' Hin. apply upd_upload_in' in Hin as (u & Hu & [[Hne ->]|[Hi ->]]).
+  - rewrite find_upload_upd by exact Hid. destruct (u_id u =? i) eqn:E; [lia|]. now apply I.
+  - rewrite Hid, find_upload_upd by exact Hid. rewrite Hi, Z.eqb_refl, <- Hi, (I u Hu). reflexivity.
+Qed.
+
+Lemma uploads_uniq_step s e s' : uploads_uniq s -> step s e = Some s' -> uploads_uniq s'.
+Proof.
+  unfold uploads_uniq. intros I H. pose proof (step_uploads_frame _ _ _ H) as Hfr.
+  destruct e; try (rewrite Hfr; exact I).
+  - destruct (s3begin_inv _ _ _ _ _ _ _ H) as [_ _ _ _ _ Hu _]. rewrite Hu.
+    destruct (is_pc op || s3op_eqb op OpAbort); [|exact I].
+    apply uploads_uniq_upd; [apply begin_upd_id|exact I].
+  - destruct (s3effect_inv _ _ _ _ H) as [(q & Hq & _ & _ & Hu & Hnone) _]. rewrite Hu.
+    destruct (s3op_eqb (r_op q) OpCreate) eqn:E; [|exact I]. apply s3op_eqb_eq in E.
+    intros u Hin. rewrite find_upload_app. apply in_app_or in Hin as [Hin|[<-|[]]].
+    + now rewrite (I u Hin).
+    + cbn [u_id]. rewrite (Hnone E), Z.eqb_refl. reflexivity.
+  - destruct (s3end_inv _ _ _ _ H) as [(q & Hq & _ & _ & Hu) _]. rewrite Hu.
+    destruct (is_pc (r_op q)); [|exact I]. apply uploads_uniq_upd; [reflexivity|exact I].
+Qed.
+
+(** ** who is inside an un-ended request *)
+Lemma in_request_busy s q : In q (reqs s) -> r_ended q = false -> busy s (r_actor q) = true.
+Proof.
+  intros Hin He. unfold busy. apply orb_true_iff. left. unfold in_request. apply existsb_exists.
+  exists q. split; [exact Hin|]. now rewrite Z.eqb_refl, He.
+Qed.
+
+Lemma cleanups_end_not_busy s a t s' : step s (ECleanupsEnd a t) = Some s' -> busy s a = false.
+Proof. intros H. cbn [step] in H. now apply busy_false_of_if in H as [Hb _]. Qed.
+
+Definition req_inv (s : state) : Prop :=
+  forall q, In q (reqs s) -> r_ended q = false ->
+  (r_op q = OpAbort ->
+     exists c, find_coord (r_t q) (coords s) = Some c /\ c_cl_runner c = Some (r_actor q)) /\
+  (r_op q <> OpAbort ->
+     exists x, find_task (r_actor q) (tasks s) = Some x /\ k_t x = r_t q /\ k_st x = TMain /\
+               kind_allows (k_kind x) (r_op q) = true /\
+               (k_kind x = KSubmission -> k_phase x = 2 /\
+                  forall k' y, find_task k' (tasks s) = Some y -> k_t y = r_t q -> k_kind y = KSubmission)).
+
+Lemma req_inv_step s e s' : tb_inv s -> req_inv s -> step s e = Some s' -> req_inv s'.
+Proof.
+  intros [TB U] I H q' Hq' He'.
+  destruct (req_origin _ _ _ _ H Hq') as [(q & Hq & _ & Ha & Ht & Hop & Hend & _)|(a & r & op & t & uid & -> & ->)].
+  - specialize (Hend He'). destruct (I q Hq Hend) as [Iab Itk]. rewrite Ha, Ht, Hop.
+    pose proof (in_request_busy _ _ Hq Hend) as Hbusy.
+    split.
+    + intros Hab. destruct (Iab Hab) as (c & Hc & Hrun).
+      destruct (coord_persistsE _ _ _ _ _ H Hc) as (c' & Hc' & Hcs). exists c'. split; [exact Hc'|].
+      destruct Hcs; cbn; auto; try congruence.
+      apply cleanups_end_not_busy in H. congruence.
+    + intros Hnab. destruct (Itk Hnab) as (x & Hx & Hxt & Hxs & Hka & Hsub).
+      destruct (task_persists _ _ _ _ _ H Hx) as (x' & Hx' & Hts). statics Hts.
+      pose proof (find_task_some_id _ _ _ Hx) as Hxid.
+      exists x'. split; [exact Hx'|]. split; [congruence|]. rewrite Skind.
+      split; [|split; [exact Hka|]].
+      * destruct Hts; cbn; auto; try congruence.
+      * intros Hk. destruct (Hsub Hk) as [Hph Hall]. split.
+        -- destruct Hts; cbn; auto; try congruence; try lia.
+        -- intros k' y' Hy' Hyt.
+           destruct (task_origin _ _ _ _ _ H Hy') as [(y & Hy & Hyts)|(_ & t1 & g & a1 & fin & deps & kind & -> & ->)].
+           ++ statics Hyts. rewrite Skind0. eapply Hall; eauto. congruence.
+           ++ cbn [k_t k_kind fresh_task] in *. subst t1.
+              destruct (Z.eq_dec kind KSubmission) as [Hkk|Hkk]; [exact Hkk|exfalso].
+              destruct (submit_inv _ _ _ _ _ _ _ _ _ H) as [_ _ Hns _ _ _ _ _ _ _ _].
+              destruct (Hns Hkk) as (Hnb & p & Hp & Hpt & _).
+              assert (Hpk : k_kind p = KSubmission) by (eapply Hall; eauto).
+              assert (a1 = r_actor q) by (eapply U; eauto; congruence). congruence.
+  - (* a request that begins now *)
+    cbn [r_actor r_t r_op r_ended] in *.
+    destruct (s3begin_inv _ _ _ _ _ _ _ H) as [_ _ Hab Htk _ _ _]. split.
+    + intros Hop. destruct (Hab Hop) as (c & Hc & Hrun).
+      destruct (coord_persistsE _ _ _ _ _ H Hc) as (c' & Hc' & Hcs).
+      exists c'. split; [exact Hc'|]. inversion Hcs; subst; exact Hrun.
+    + intros Hop. destruct (Htk Hop) as (x & Hx & Hxt & Hxs & Hka & Hsub).
+      destruct (task_persists _ _ _ _ _ H Hx) as (x' & Hx' & Hts).
+      assert (x' = x) by (inversion Hts; subst; reflexivity). subst x'.
+      exists x. repeat split; auto; destruct (Hsub H0) as [Hph Hall]; [exact Hph|].
+      intros k' y' Hy' Hyt.
+      destruct (task_origin _ _ _ _ _ H Hy') as [(y & Hy & Hyts)|(_ & t1 & g & a1 & fin & deps & kind & E & _)]; [|discriminate].
+      assert (y' = y) by (inversion Hyts; subst; reflexivity). subst y'. eauto.
+Qed.
+
+(** ** why an announce began *)
+Definition cause3 (s : state) (t : Z) : Prop :=
+  (exists kf f, find_task kf (tasks s) = Some f /\ k_t f = t /\ k_final f = true /\ past_main (k_st f) = true) \/
+  (exists kS S, find_task kS (tasks s) = Some S /\ k_t S = t /\ k_kind S = KSubmission /\ 4 <= k_phase S) \/
+  quiet s t.
+
+Definition started_cause_inv (s : state) : Prop :=
+  forall t c, find_coord t (coords s) = Some c -> ann_trig c -> cause3 s t.
+
+Lemma phase_monotone_step s e x x' : tstepE s e x x' -> k_phase x <= k_phase x'.
+Proof. intros H. destruct H; cbn; lia. Qed.
+
+Lemma cause3_step s e s' t :
+  coord_done s t = true -> cause3 s t -> step s e = Some s' -> cause3 s' t.
+Proof.
+  intros Hd [(kf & f & Hf & Ht & Hfin & Hpm)|[(kS & S & HS & Ht & Hk & Hp)|Q]] H.
+  - destruct (task_persists _ _ _ _ _ H Hf) as (f' & Hf' & Hts). statics Hts.
+    left. exists kf, f'. repeat split; try congruence. eapply past_main_monotone_step; eauto.
+  - destruct (task_persists _ _ _ _ _ H HS) as (S' & HS' & Hts). statics Hts.
+    right; left. exists kS, S'. repeat split; try congruence.
+    pose proof (phase_monotone_step _ _ _ _ Hts). lia.
+  - right; right. eapply quiet_step; eauto.
+Qed.
+
+Lemma started_cause_step s e s' :
+  T1_inv s -> ns_inv s -> started_cause_inv s -> step s e = Some s' -> started_cause_inv s'.
+Proof.
+  intros T1 NS I H t c' Hc' Htr.
+  destruct (coord_origin _ _ _ _ _ H Hc') as [(c & Hc & Hcs)|(_ & ->)].
+  2:{ destruct Htr as [Htr|Htr]; cbn in Htr; congruence. }
+  assert (Hold : ann_trig c -> cause3 s' t).
+  { intros Ht. eapply cause3_step; [|apply (I t c Hc Ht)|exact H].
+    destruct T1 as (_ & _ & _ & IA). unfold coord_done. rewrite Hc. now apply (IA t c Hc). }
+  unfold ann_trig in *.
+  destruct Hcs; cbn in Htr; try (apply Hold; exact Htr).
+  - (* cancel at not-started *)
+    assert (Hu : unstarted s t) by (unfold unstarted; rewrite Hc; assumption).
+    destruct (NS t Hu) as [A B C].
+    destruct (cancel_inv _ _ _ _ _ H) as (_ & _ & _ & _ & Ht & Hr & Hup & _).
+    right; right. constructor; rewrite ?Ht, ?Hr, ?Hup; auto.
+    intros k x Hx Hxt. destruct (A k x Hx Hxt). auto.
+  - (* owing *) apply Hold. right. eapply mem_z_nonempty; eauto.
+  - (* announce begins *)
+    match goal with Hx : find_task a (tasks s) = Some ?x, Hd : _ \/ _ |- _ =>
+      destruct (task_persists _ _ _ _ _ H Hx) as (x' & Hx' & Hts); statics Hts;
+      pose proof (phase_monotone_step _ _ _ _ Hts) as Hmono;
+      destruct Hd as [(Hk & Hst & Hph)|(Hk & Hst & Hfin)] end.
+    + right; left. exists a, x'. repeat split; try congruence; try lia.
+    + left. exists a, x'. repeat split; try congruence.
+      all: try (eapply past_main_monotone_step; [exact Hts|]; rewrite Hst; reflexivity).
+Qed.
+
+(** ** once an announce began, set_result is no longer possible *)
+Lemma started_mono c c' : cstep c c' -> c_ann_started c = true -> c_ann_started c' = true.
+Proof. intros H Hs. destruct H; cbn; auto. Qed.
+
+Lemma started_keeps_nonsuccess s e t c c' :
+  base_inv s -> calm_inv s -> find_coord t (coords s) = Some c -> c_ann_started c = true ->
+  cstepE s t e c c' -> c_status c <> Success -> c_status c' <> Success.
+Proof.
+  intros B C Hc Hst Hcs Hns.
+  destruct Hcs; cbn; auto; try discriminate.
+  - (* set_result: needs a final task in its main *)
+    exfalso. destruct (bi_tb _ B) as [TB _].
+    match goal with Hx : find_task k (tasks s) = Some ?y |- _ =>
+      destruct (TB k y Hx) as [B1 _ _ _ _ _ _ _];
+      assert (Hk : k_kind y <> KSubmission) by (intros Hk; destruct (B1 Hk); congruence);
+      assert (Hcalm : calm s t) by (apply C; right; right; exists c; auto);
+      pose proof (Hcalm k y Hx ltac:(assumption) Hk) as Hh end.
+    match goal with Hq : k_st _ = TMain |- _ => rewrite Hq in Hh end. discriminate.
+  - destruct tr; discriminate.
+Qed.
+
+Definition cl_nosucc_inv (s : state) : Prop :=
+  forall t c, find_coord t (coords s) = Some c -> c_cl_runner c <> None -> c_status c <> Success.
+
+Lemma cl_nosucc_step s e s' :
+  base_inv s -> calm_inv s -> cl_nosucc_inv s -> step s e = Some s' -> cl_nosucc_inv s'.
+Proof.
+  intros B C I H t c' Hc' Hrun.
+  destruct (coord_origin _ _ _ _ _ H Hc') as [(c & Hc & Hcs)|(_ & ->)]; [|cbn in Hrun; congruence].
+  destruct (c_cl_runner c) eqn:Er.
+  - assert (Hst : c_ann_started c = true).
+    { destruct (bi_t1 _ B) as (_ & _ & IL & _). destruct (IL t c Hc) as [_ _ _ _ L5 _]. apply L5. congruence. }
+    eapply started_keeps_nonsuccess; eauto. apply (I t c Hc). congruence.
+  - destruct Hcs; cbn in *; try congruence.
+    match goal with Hq : status_eqb _ Success = false |- _ =>
+      intros E; rewrite E in Hq; discriminate end.
+Qed.
+
+(** ** C05: the per-upload discipline *)
+Definition pc_open (uid : Z) (q : req) : bool := is_pc (r_op q) && (r_uid q =? uid) && negb (r_ended q).
+Definition c_open (uid : Z) (q : req) : bool :=
+  s3op_eqb (r_op q) OpComplete && (r_uid q =? uid) && negb (r_ended q).
+
+Record upload_ok (s : state) (u : upload) : Prop := {
+  uo_after : u_begun_after_abort u = false;
+  uo_infl : u_abort_while_inflight u = false;
+  uo_abort : u_abort_begun u = true ->
+     exists c, find_coord (u_t u) (coords s) = Some c /\ c_ann_started c = true /\ c_status c <> Success;
+  uo_cnt : u_inflight u = cnt (pc_open (u_id u)) (reqs s);
+  uo_compl : 0 <= u_completes_ok u /\
+             u_completes_ok u + cnt (c_open (u_id u)) (reqs s) <= b2z (u_complete_begun u)
+}.
+
+Definition upload_inv (s : state) : Prop := forall u, In u (uploads s) -> upload_ok s u.
+
+Definition pc_ref_inv (s : state) : Prop :=
+  forall q, In q (reqs s) -> is_pc (r_op q) = true ->
+  exists u, find_upload (r_uid q) (uploads s) = Some u /\ u_t u = r_t q.
+
+Lemma cnt_zero P l : (forall q, In q l -> P q = false) -> cnt P l = 0.
+Proof.
+  induction l as [|y r IH]; [reflexivity|]. intros H. rewrite cnt_cons, (H y) by now left.
+  rewrite IH; [reflexivity|]. intros q Hq. apply H. now right.
+Qed.
+
+Lemma cnt_in_pos P l q : In q l -> P q = true -> 0 < cnt P l.
+Proof.
+  induction l as [|y r IH]; [intros []|]. rewrite cnt_cons. pose proof (cnt_nonneg P r) as Hnn.
+  intros [E|Hin] HP.
+  - subst y. rewrite HP. unfold b2z. lia.
+  - specialize (IH Hin HP). destruct (P y); unfold b2z; lia.
+Qed.
+
+Lemma find_upload_persists s e s' i u :
+  step s e = Some s' -> find_upload i (uploads s) = Some u ->
+  exists u', find_upload i (uploads s') = Some u' /\ u_t u' = u_t u.
+Proof.
+  intros H Hu. pose proof (step_uploads_frame _ _ _ H) as Hfr.
+  destruct e; try (rewrite Hfr; eauto).
+  - destruct (s3begin_inv _ _ _ _ _ _ _ H) as [_ _ _ _ _ Hup _]. rewrite Hup.
+    destruct (is_pc op || s3op_eqb op OpAbort); [|eauto].
+    rewrite find_upload_upd by apply begin_upd_id. rewrite Hu. cbn [option_map].
+    destruct (i =? uid); eexists; split; try reflexivity. apply begin_upd_t.
+  - destruct (s3effect_inv _ _ _ _ H) as [(q & Hq & _ & _ & Hup & _) _]. rewrite Hup.
+    destruct (s3op_eqb (r_op q) OpCreate); [|eauto]. rewrite find_upload_app, Hu. eauto.
+  - destruct (s3end_inv _ _ _ _ H) as [(q & Hq & _ & _ & Hup) _]. rewrite Hup.
+    destruct (is_pc (r_op q)); [|eauto].
+    rewrite find_upload_upd by reflexivity. rewrite Hu. cbn [option_map].
+    destruct (i =? r_uid q); eexists; split; reflexivity.
+Qed.
+
+Lemma pc_ref_step s e s' : pc_ref_inv s -> step s e = Some s' -> pc_ref_inv s'.
+Proof.
+  intros I H q' Hq' Hpc.
+  destruct (req_origin _ _ _ _ H Hq') as [(q & Hq & _ & _ & Ht & Hop & _ & Huid)|(a & r & op & t & uid & -> & ->)].
+  - rewrite Hop in Hpc. assert (Hnc : r_op q <> OpCreate) by (intros E; rewrite E in Hpc; discriminate).
+    rewrite (Huid Hnc), Ht. destruct (I q Hq Hpc) as (u & Hu & Hut).
+    destruct (find_upload_persists _ _ _ _ _ H Hu) as (u' & Hu' & Hut'). exists u'. split; [exact Hu'|congruence].
+  - cbn [r_op r_uid r_t] in *.
+    destruct (s3begin_inv _ _ _ _ _ _ _ H) as [_ _ _ _ _ _ Hup].
+    destruct Hup as (u & Hu & Hut & _); [now rewrite Hpc|].
+    destruct (find_upload_persists _ _ _ _ _ H Hu) as (u' & Hu' & Hut'). exists u'. split; [exact Hu'|congruence].
+Qed.
+
+Lemma pc_open_effect id uid q : pc_open id (effect_upd uid q) = pc_open id q.
+Proof. unfold pc_open, effect_upd. cbn. destruct (r_op q); reflexivity. Qed.
+Lemma c_open_effect id uid q : c_open id (effect_upd uid q) = c_open id q.
+Proof. unfold c_open, effect_upd. cbn. destruct (r_op q); reflexivity. Qed.
+Lemma pc_open_end id ok q : pc_open id (end_upd ok q) = false.
+Proof. unfold pc_open, end_upd. cbn. now rewrite andb_false_r. Qed.
+Lemma c_open_end id ok q : c_open id (end_upd ok q) = false.
+Proof. unfold c_open, end_upd. cbn. now rewrite andb_false_r. Qed.
+Lemma c_open_pc id q : c_open id q = true -> pc_open id q = true.
+Proof. unfold c_open, pc_open. destruct (r_op q); cbn; try discriminate; auto. Qed.
+
+Record d_inv (s : state) : Prop := {
+  di_base : base_inv s;
+  di_calm : calm_inv s;
+  di_req : req_inv s;
+  di_nodup : reqs_nodup s;
+  di_uniq : uploads_uniq s;
+  di_pcref : pc_ref_inv s;
+  di_clns : cl_nosucc_inv s;
+  di_cause : started_cause_inv s
+}.
+
+Lemma d_inv_step s e s' : d_inv s -> step s e = Some s' -> d_inv s'.
+Proof.
+  intros [D1 D2 D3 D4 D5 D6 D7 D8] H. constructor.
+  - eapply base_inv_step; eauto.
+  - eapply calm_inv_step; eauto.
+  - eapply req_inv_step; eauto. apply D1.
+  - eapply reqs_nodup_step; eauto.
+  - eapply uploads_uniq_step; eauto.
+  - eapply pc_ref_step; eauto.
+  - eapply cl_nosucc_step; eauto.
+  - eapply started_cause_step; eauto; apply D1.
+Qed.
+
+Lemma abort_coord_step s e s' t :
+  base_inv s -> calm_inv s -> step s e = Some s' ->
+  (exists c, find_coord t (coords s) = Some c /\ c_ann_started c = true /\ c_status c <> Success) ->
+  (exists c, find_coord t (coords s') = Some c /\ c_ann_started c = true /\ c_status c <> Success).
+Proof.
+  intros B C H (c & Hc & Hst & Hns).
+  destruct (coord_persistsE _ _ _ _ _ H Hc) as (c' & Hc' & Hcs). exists c'. split; [exact Hc'|]. split.
+  - eapply started_mono; [eapply cstepE_cstep; exact Hcs|exact Hst].
+  - eapply started_keeps_nonsuccess; eauto.
+Qed.
+
+(** a part/complete request in flight for upload [u] belongs to a task of [u]'s
+    transfer that is inside its main: impossible once an announce began *)
+Lemma open_pc_not_started s u q c :
+  d_inv s -> In u (uploads s) -> In q (reqs s) -> pc_open (u_id u) q = true ->
+  find_coord (u_t u) (coords s) = Some c -> c_ann_started c = true -> False.
+Proof.
+  intros [B C R _ UU PR _ _] Hu Hq Hpc Hc Hst.
+  unfold pc_open in Hpc. split_ands.
+  match goal with Hn : negb (r_ended q) = true |- _ => apply negb_true_iff in Hn; rename Hn into Hend end.
+  match goal with Hp : is_pc (r_op q) = true |- _ => rename Hp into Hpc end.
+  destruct (PR q Hq Hpc) as (u1 & Hu1 & Hut1).
+  assert (Huid : r_uid q = u_id u) by lia. rewrite Huid, (UU u Hu) in Hu1. injection Hu1 as <-.
+  destruct (R q Hq Hend) as [_ Rt]. assert (Hna : r_op q <> OpAbort) by (intros E; rewrite E in Hpc; discriminate).
+  destruct (Rt Hna) as (x & Hx & Hxt & Hxs & Hka & _).
+  assert (Hk : k_kind x <> KSubmission).
+  { intros Hk. rewrite Hk in Hka. destruct (r_op q); discriminate. }
+  assert (Hcalm : calm s (u_t u)) by (apply C; right; right; exists c; auto).
+  pose proof (Hcalm _ x Hx ltac:(congruence) Hk) as Hh. rewrite Hxs in Hh. discriminate.
+Qed.
+
+Lemma upload_ok_frame s e s' u :
+  base_inv s -> calm_inv s -> step s e = Some s' ->
+  uploads s' = uploads s -> reqs s' = reqs s -> upload_ok s u -> upload_ok s' u.
+Proof.
+  intros B C H _ Hr [A1 A2 A3 A4 A5]. constructor; rewrite ?Hr; auto.
+  intros Hab. eapply abort_coord_step; eauto.
+Qed.
+
+Lemma upload_inv_step s e s' : d_inv s -> upload_inv s -> step s e = Some s' -> upload_inv s'.
+Proof.
+  intros D I H u' Hu'. pose proof D as [B C R ND UU PR CN _].
+  pose proof (step_uploads_frame _ _ _ H) as Hfu. pose proof (step_reqs_frame _ _ _ H) as Hfr.
+  destruct e; try (rewrite Hfu in Hu'; eapply upload_ok_frame; eauto; fail).
+  - (* ES3Begin *)
+    destruct (s3begin_inv _ _ _ _ _ _ _ H) as [_ _ Hab Htk Hr Hup Hupl].
+    assert (Hcnt : forall P, cnt P (reqs s') = cnt P (reqs s) + b2z (P (mkReq r a t op uid false false false))).
+    { intros P. rewrite Hr. apply cnt_app. }
+    assert (Hother : forall u, In u (uploads s) -> (is_pc op = false \/ u_id u <> uid) -> upload_ok s' u).
+    { intros u Hu Hne. destruct (I u Hu) as [A1 A2 A3 A4 A5].
+      assert (E1 : pc_open (u_id u) (mkReq r a t op uid false false false) = false).
+      { unfold pc_open. cbn [r_op r_uid r_ended]. destruct Hne as [-> | Hne]; [reflexivity|].
+        destruct (uid =? u_id u) eqn:E; [lia|]. now rewrite andb_false_r. }
+      assert (E2 : c_open (u_id u) (mkReq r a t op uid false false false) = false).
+      { destruct (c_open (u_id u) (mkReq r a t op uid false false false)) eqn:E; [|reflexivity].
+        apply c_open_pc in E. congruence. }
+      constructor; rewrite ?Hcnt, ?E1, ?E2; cbn [b2z]; rewrite ?Z.add_0_r; auto.
+      intros Hb. eapply abort_coord_step; eauto. }
+    rewrite Hup in Hu'.
+    destruct (is_pc op || s3op_eqb op OpAbort) eqn:Eop.
+    2:{ apply orb_false_elim in Eop as [E1 _]. apply Hother; auto. }
+    destruct (Hupl eq_refl) as (u0 & Hu0 & Hu0t & Hcb).
+    apply upd_upload_in' in Hu' as (u & Hu & [[Hne ->]|[Hi ->]]).
+    { (* another upload *)
+      destruct (is_pc op) eqn:Epc; [apply Hother; auto|].
+      (* abort of another id: nothing counted *)
+      apply Hother; auto. }
+    (* the upload the request is for *)
+    assert (u0 = u) by (pose proof (UU u Hu) as Hf; rewrite Hi, Hu0 in Hf; congruence). subst u0.
+    destruct (I u Hu) as [A1 A2 A3 A4 A5].
+    destruct (s3op_eqb op OpAbort) eqn:Eab.
+    + (* abort *)
+      apply s3op_eqb_eq in Eab. subst op. destruct (Hab eq_refl) as (c & Hc & Hrun).
+      assert (Hst : c_ann_started c = true).
+      { destruct (bi_t1 _ B) as (_ & _ & IL & _). destruct (IL t c Hc) as [_ _ _ _ L5 _]. apply L5. congruence. }
+      assert (Hinfl : u_inflight u = 0).
+      { destruct (Z.eq_dec (u_inflight u) 0) as [E|E]; [exact E|exfalso].
+        pose proof (cnt_nonneg (pc_open (u_id u)) (reqs s)).
+        destruct (cnt_pos_exists (pc_open (u_id u)) (reqs s)) as (q & Hq & Hpc); [lia|].
+        eapply (open_pc_not_started s u q c); eauto. now rewrite Hu0t. }
+      constructor; cbn [begin_upd u_begun_after_abort u_abort_while_inflight u_abort_begun u_t u_id u_inflight
+                         u_completes_ok u_complete_begun].
+      * exact A1.
+      * rewrite A2, Hinfl. reflexivity.
+      * intros _. rewrite Hu0t.
+        destruct (coord_persistsE _ _ _ _ _ H Hc) as (c' & Hc' & Hcs).
+        assert (c' = c) by (inversion Hcs; subst; reflexivity). subst c'.
+        exists c. repeat split; auto. apply (CN t c Hc). congruence.
+      * rewrite Hcnt, A4. unfold pc_open at 3. cbn. lia.
+      * rewrite Hcnt. unfold c_open at 2. cbn. lia.
+    + (* part / complete *)
+      rewrite orb_false_r in Eop.
+      assert (Hnab : u_abort_begun u = false).
+      { destruct (u_abort_begun u) eqn:Eb; [exfalso|reflexivity].
+        destruct (A3 eq_refl) as (c & Hc & Hst & _).
+        assert (Hna : op <> OpAbort) by (intros ->; discriminate).
+        destruct (Htk Hna) as (x & Hx & Hxt & Hxs & Hka & _).
+        assert (Hk : k_kind x <> KSubmission).
+        { intros Hk. rewrite Hk in Hka. destruct op; discriminate. }
+        assert (Hcalm : calm s (u_t u)) by (apply C; right; right; exists c; auto).
+        pose proof (Hcalm _ x Hx ltac:(congruence) Hk) as Hh. rewrite Hxs in Hh. discriminate. }
+      assert (Hbu : begin_upd op u =
+                    mkUpload (u_id u) (u_t u) (u_inflight u + 1) (u_completes_ok u)
+                      (u_complete_begun u || s3op_eqb op OpComplete) (u_abort_begun u) (u_abort_count u)
+                      (u_begun_after_abort u || u_abort_begun u) (u_abort_while_inflight u))
+        by (destruct op; try discriminate; reflexivity).
+      rewrite Hbu.
+      constructor; cbn [u_begun_after_abort u_abort_while_inflight u_abort_begun u_t u_id u_inflight
+                         u_completes_ok u_complete_begun].
+      * rewrite A1, Hnab. reflexivity.
+      * exact A2.
+      * rewrite Hnab. discriminate.
+      * rewrite Hcnt, A4. unfold pc_open at 3. cbn [r_op r_uid r_ended]. rewrite Eop, Hi, Z.eqb_refl. cbn. lia.
+      * rewrite Hcnt. unfold c_open at 2. cbn [r_op r_uid r_ended]. rewrite Hi, Z.eqb_refl.
+        destruct A5 as [A5a A5b]. split; [exact A5a|]. rewrite Hi in A5b.
+        destruct op; try discriminate; cbn.
+        -- rewrite orb_false_r. lia.
+        -- rewrite (Hcb eq_refl) in *. cbn in *. lia.
+  - (* ES3Effect *)
+    destruct (s3effect_inv _ _ _ _ H) as [(q & Hq & _ & _ & Hup & Hnone) Hr].
+    assert (Hcnt1 : forall id, cnt (pc_open id) (reqs s') = cnt (pc_open id) (reqs s)).
+    { intros id. rewrite Hr. apply cnt_upd_same. intros; apply pc_open_effect. }
+    assert (Hcnt2 : forall id, cnt (c_open id) (reqs s') = cnt (c_open id) (reqs s)).
+    { intros id. rewrite Hr. apply cnt_upd_same. intros; apply c_open_effect. }
+    assert (Hold : forall u, In u (uploads s) -> upload_ok s' u).
+    { intros u Hu. destruct (I u Hu) as [A1 A2 A3 A4 A5]. constructor; rewrite ?Hcnt1, ?Hcnt2; auto.
+      intros Hb. eapply abort_coord_step; eauto. }
+    rewrite Hup in Hu'. destruct (s3op_eqb (r_op q) OpCreate) eqn:Ecr; [|auto].
+    apply in_app_or in Hu' as [Hu'|[<-|[]]]; [auto|].
+    apply s3op_eqb_eq in Ecr.
+    assert (Hz : cnt (pc_open uid) (reqs s) = 0).
+    { apply cnt_zero. intros q1 Hq1. destruct (pc_open uid q1) eqn:E; [exfalso|reflexivity].
+      unfold pc_open in E. split_ands.
+      destruct (PR q1 Hq1 ltac:(assumption)) as (u1 & Hu1 & _).
+      assert (r_uid q1 = uid) by lia. rewrite H3, (Hnone Ecr) in Hu1. discriminate. }
+    constructor; cbn; try reflexivity; try discriminate.
+    + rewrite Hcnt1. lia.
+    + rewrite Hcnt2. split; [lia|].
+      assert (cnt (c_open uid) (reqs s) = 0); [|lia].
+      apply cnt_zero. intros q1 Hq1. destruct (c_open uid q1) eqn:E; [exfalso|reflexivity].
+      apply c_open_pc in E. pose proof (cnt_in_pos _ _ _ Hq1 E). lia.
+  - (* ES3End *)
+    destruct (s3end_inv _ _ _ _ H) as [(q & Hq & Hend & _ & Hup) Hr].
+    assert (Hcnt1 : forall id, cnt (pc_open id) (reqs s') = cnt (pc_open id) (reqs s) - b2z (pc_open id q)).
+    { intros id. rewrite Hr, (cnt_upd _ _ _ _ q ND Hq), pc_open_end. cbn. lia. }
+    assert (Hcnt2 : forall id, cnt (c_open id) (reqs s') = cnt (c_open id) (reqs s) - b2z (c_open id q)).
+    { intros id. rewrite Hr, (cnt_upd _ _ _ _ q ND Hq), c_open_end. cbn. lia. }
+    assert (Hother : forall u, In u (uploads s) -> (is_pc (r_op q) = false \/ u_id u <> r_uid q) -> upload_ok s' u).
+    { intros u Hu Hne. destruct (I u Hu) as [A1 A2 A3 A4 A5].
+      assert (E1 : pc_open (u_id u) q = false).
+      { unfold pc_open. destruct Hne as [-> | Hne]; [reflexivity|].
+        destruct (r_uid q =? u_id u) eqn:E; [lia|]. now rewrite andb_false_r. }
+      assert (E2 : c_open (u_id u) q = false).
+      { destruct (c_open (u_id u) q) eqn:E; [|reflexivity]. apply c_open_pc in E. congruence. }
+      constructor; rewrite ?Hcnt1, ?Hcnt2, ?E1, ?E2; cbn [b2z]; auto; try lia.
+      - intros Hb. eapply abort_coord_step; eauto.
+      - rewrite Z.sub_0_r. exact A5. }
+    rewrite Hup in Hu'. destruct (is_pc (r_op q)) eqn:Epc; [|apply Hother; auto].
+    apply upd_upload_in' in Hu' as (u & Hu & [[Hne ->]|[Hi ->]]); [apply Hother; auto|].
+    destruct (I u Hu) as [A1 A2 A3 A4 A5].
+    assert (E1 : pc_open (u_id u) q = true).
+    { unfold pc_open. rewrite Epc, Hend, Hi, Z.eqb_refl. reflexivity. }
+    constructor; cbn [end_upload_upd u_begun_after_abort u_abort_while_inflight u_abort_begun u_t u_id u_inflight
+                       u_completes_ok u_complete_begun]; auto.
+    + intros Hb. eapply abort_coord_step; eauto.
+    + rewrite Hcnt1, E1, A4. cbn. lia.
+    + rewrite Hcnt2. destruct A5 as [A5a A5b].
+      assert (E2 : c_open (u_id u) q = s3op_eqb (r_op q) OpComplete).
+      { unfold c_open. rewrite Hend, Hi, Z.eqb_refl. cbn. now rewrite !andb_true_r. }
+      rewrite E2. destruct (s3op_eqb (r_op q) OpComplete); cbn [andb b2z].
+      * destruct (r_effect q); lia.
+      * lia.
+Qed.
